@@ -17,8 +17,8 @@ ENGINES = [
      "kind_free_text": "runtime monitor: multi-threaded scenarios (main thread owning the host + reader threads on tagged snapshots, seeded sleeps/yields); offline checker compares every recorded answer with a sequential fresh analysis of the tagged version; cancellation/promptness accounting"},
     {"name": "m_sema", "path": "harness/vh/src/bin/m_sema.rs", "serves_properties": ["C05", "C06", "C07", "C08", "C18"],
      "kind_free_text": "runtime monitor: scope-aware generated workspaces (ground truth recorded by the generator's sidecar) loaded into ide::AnalysisHost; by-construction binding oracle (C05), refs<=>goto census law (C06), rename + fresh re-analysis isomorphism (C07), rename refusal reference table over three packages (C08), completion scope sets and accept-and-resolve (C18)"},
-    {"name": "m_types", "path": "harness/vh/src/bin/m_types.rs", "serves_properties": ["C09"],
-     "kind_free_text": "runtime monitor: type-directed generated well-typed workspaces (vh::tgen; the type of every binder is known by construction) loaded into ide::AnalysisHost; hover at every binder/function is compared with the constructed type, polymorphic helpers up to renaming"},
+    {"name": "m_types", "path": "harness/vh/src/bin/m_types.rs", "serves_properties": ["C09", "C05", "C18", "C19"],
+     "kind_free_text": "runtime monitor: type-directed generated well-typed workspaces (vh::tgen; the type of every binder is known by construction) loaded into ide::AnalysisHost; hover at every binder/function is compared with the constructed type, polymorphic helpers up to renaming; the same workspaces decide the type-dependent clauses of C05 (local uses incl. locals shadowing module accessors), C18 (`value.` completion) and C19 (function-typed locals)"},
     {"name": "m_robust", "path": "harness/vh/src/bin/m_robust.rs", "serves_properties": ["C10", "C20"],
      "kind_free_text": "runtime monitor: all-offsets x all-query-kinds sweep over generated, corpus and damaged workspaces loaded into ide::AnalysisHost; panic/abort monitor (C10) and range-validity monitor (C20) over the same executions"},
     {"name": "m_gram", "path": "harness/vh/src/bin/m_gram.rs", "serves_properties": ["C03", "C04"],
